@@ -27,10 +27,11 @@ VARIABLES
   rmk,    \* rmk[p][c]: kind of the removal update of p on c ("-", "settle", "fail")
   amt,    \* amt[c][p]: amount of p's add as seen on c
   rsy,    \* rsy[c][x]: x may retransmit on c (set by a restart of the link)
+  und,    \* und[c][x]: [lc, rtl, rtp] before the last signature / revocation x took off the wire (see Reest)
   hold,   \* hold[p]: how p's hold invoice was resolved ("-", "settle", "cancel")
   ib      \* initial balances <<A(AB), B(AB), B(BC), C(BC)>>
 
-wire == <<snt, rcv, lc, rtl, rtp, idm, rmk, amt, rsy, hold, ib>>
+wire == <<snt, rcv, lc, rtl, rtp, idm, rmk, amt, rsy, und, hold, ib>>
 vars == <<pl, st, hs, wire, l>>
 
 Trace == ndJsonDeserialize("trace.ndjson")
@@ -47,6 +48,7 @@ Offerer(p, c) == IF c = InCh(p) THEN (IF pl[p].dir = "fwd" THEN "A" ELSE "C") EL
 
 NoCm  == [h |-> 0, own |-> {}, th |-> {}]
 NoTip == [on |-> FALSE, h |-> 0, own |-> {}, th |-> {}]
+NoUndo == [lc |-> NoCm, rtl |-> NoCm, rtp |-> NoTip]
 Per(v) == [c \in Chans |-> [x \in Ends(c) |-> v]]
 Put(f, k, v) == [i \in DOMAIN f \cup {k} |-> IF i = k THEN v ELSE f[i]]
 Add(p) == <<p, "add">>
@@ -107,6 +109,7 @@ TInit == /\ l = 1
          /\ pl = <<>> /\ st = <<>> /\ hs = <<>>
          /\ snt = Per({}) /\ rcv = Per({}) /\ lc = Per(NoCm) /\ rtl = Per(NoCm) /\ rtp = Per(NoTip)
          /\ idm = Per(<<>>) /\ rmk = <<>> /\ amt = [c \in Chans |-> <<>>] /\ rsy = Per(TRUE)
+         /\ und = Per(NoUndo)
          /\ hold = <<>> /\ ib = <<0, 0, 0, 0>>
 
 Reset == /\ Is("Reset")
@@ -117,7 +120,7 @@ Reset == /\ Is("Reset")
          /\ idm' = Per(<<>>)
          /\ rmk' = [p \in DOMAIN E.pays |-> [c \in Chans |-> "-"]]
          /\ amt' = [c \in Chans |-> [p \in DOMAIN E.pays |-> 0]]
-         /\ rsy' = Per(TRUE)
+         /\ rsy' = Per(TRUE) /\ und' = Per(NoUndo)
          /\ hold' = [p \in DOMAIN E.pays |-> "-"]
          /\ ib' = E.bal
 
@@ -137,7 +140,7 @@ SendAdd ==
              /\ idm' = [idm EXCEPT ![c][n] = Put(@, E.id, p)]
              /\ amt' = [amt EXCEPT ![c][p] = E.amt]
              /\ rsy' = [rsy EXCEPT ![c][n] = FALSE]
-             /\ UNCHANGED <<rcv, lc, rtl, rtp, rmk, hold, ib>>
+             /\ UNCHANGED <<rcv, lc, rtl, rtp, rmk, und, hold, ib>>
              /\ Finish([hs EXCEPT ![p].dnOffered = @ \/ (n = "B")])
   /\ UNCHANGED pl
 
@@ -145,7 +148,7 @@ RecvAdd ==
   /\ IsE("r", {"add"})
   /\ E.p \in P
   /\ rcv' = [rcv EXCEPT ![E.ch][E.n] = @ \cup {Add(E.p)}]
-  /\ UNCHANGED <<snt, lc, rtl, rtp, idm, rmk, amt, rsy, hold, ib, pl>>
+  /\ UNCHANGED <<snt, lc, rtl, rtp, idm, rmk, amt, rsy, und, hold, ib, pl>>
   /\ Finish(hs)
 
 Kind(k) == IF k = "ful" THEN "settle" ELSE "fail"
@@ -161,7 +164,7 @@ SendRm ==
            ELSE /\ snt' = [snt EXCEPT ![c][n] = @ \cup {u}]
                 /\ rmk' = [rmk EXCEPT ![q][c] = Kind(E.k)]
                 /\ rsy' = [rsy EXCEPT ![c][n] = FALSE]
-                /\ UNCHANGED <<rcv, lc, rtl, rtp, idm, amt, hold, ib>>
+                /\ UNCHANGED <<rcv, lc, rtl, rtp, idm, amt, und, hold, ib>>
         /\ Finish(IF n = "B" /\ c = InCh(q)
                   THEN IF E.k = "ful"
                        THEN [hs EXCEPT ![q].upSettle = TRUE, ![q].upPre = IF E.p = q THEN "P" ELSE "X"]
@@ -175,7 +178,7 @@ RecvRm ==
      /\ E.id \in DOMAIN idm[c][n]
      /\ LET q == idm[c][n][E.id] IN
         /\ rcv' = [rcv EXCEPT ![c][n] = @ \cup {Rm(q)}]
-        /\ UNCHANGED <<snt, lc, rtl, rtp, idm, rmk, amt, rsy, hold, ib, pl>>
+        /\ UNCHANGED <<snt, lc, rtl, rtp, idm, rmk, amt, rsy, und, hold, ib, pl>>
         /\ Finish(IF n = "B" /\ c = OutCh(q)
                   THEN IF E.k = "ful"
                        THEN [hs EXCEPT ![q].dnSettle = TRUE, ![q].dnPre = IF E.p = q THEN "P" ELSE "X"]
@@ -193,7 +196,7 @@ SendSig ==
      ELSE /\ rtp' = [rtp EXCEPT ![c][n] = [on |-> TRUE, h |-> rtl[c][n].h + 1,
                                            own |-> snt[c][n], th |-> lc[c][n].th]]
           /\ rsy' = [rsy EXCEPT ![c][n] = FALSE]
-          /\ UNCHANGED <<snt, rcv, lc, rtl, idm, rmk, amt, hold, ib>>
+          /\ UNCHANGED <<snt, rcv, lc, rtl, idm, rmk, amt, und, hold, ib>>
   /\ UNCHANGED pl
   /\ Finish(hs)
 
@@ -204,6 +207,7 @@ RecvSig ==
      /\ rtp[c][m].on
      /\ rtp[c][m].own \subseteq rcv[c][n]
      /\ lc' = [lc EXCEPT ![c][n] = [h |-> rtp[c][m].h, own |-> rtp[c][m].th, th |-> rtp[c][m].own]]
+     /\ und' = [und EXCEPT ![c][n].lc = lc[c][n]]
   /\ UNCHANGED <<snt, rcv, rtl, rtp, idm, rmk, amt, rsy, hold, ib, pl>>
   /\ Finish(hs)
 
@@ -215,12 +219,13 @@ RecvRev ==
      /\ lc[c][m].h = rtp[c][n].h
      /\ rtl' = [rtl EXCEPT ![c][n] = [h |-> rtp[c][n].h, own |-> rtp[c][n].own, th |-> rtp[c][n].th]]
      /\ rtp' = [rtp EXCEPT ![c][n] = NoTip]
+     /\ und' = [und EXCEPT ![c][n].rtl = rtl[c][n], ![c][n].rtp = rtp[c][n]]
   /\ UNCHANGED <<snt, rcv, lc, idm, rmk, amt, rsy, hold, ib, pl>>
   /\ Finish(hs)
 
 \* messages that change nothing here: revocations being sent, re-establish, channel_ready, lost messages
 Other ==
-  /\ \/ IsE("s", {"rev", "reest", "ready"})
+  /\ \/ IsE("s", {"rev", "ready"})
      \/ IsE("r", {"reest", "ready"})
      \/ (Is("E") /\ E.io = "d")
      \/ Is("Disc") \/ Is("Abort")
@@ -236,20 +241,46 @@ Restart ==
                   ELSE snt[c][x]]]
      /\ rcv' = [c \in Chans |-> [x \in Ends(c) |-> IF c \in cs THEN lc[c][x].th ELSE rcv[c][x]]]
      /\ rsy' = [c \in Chans |-> [x \in Ends(c) |-> IF c \in cs THEN TRUE ELSE rsy[c][x]]]
-  /\ UNCHANGED <<lc, rtl, rtp, idm, rmk, amt, hold, ib, pl>>
+  /\ UNCHANGED <<lc, rtl, rtp, idm, rmk, amt, und, hold, ib, pl>>
+  \* O4: a reconnect of the incoming channel may strand an add that is locked in at Bob and neither forwarded
+  \* nor answered yet; a restart of the switch clears it (the circuit is then "loaded from disk": failed back)
+  /\ Finish([p \in P |-> [hs[p] EXCEPT !.strand =
+                IF E.kind = "net" THEN FALSE
+                ELSE @ \/ (InCh(p) = E.ch /\ st[p].ia = "locked" /\ ~hs[p].dnOffered
+                           /\ ~hs[p].upSettle /\ ~hs[p].upFail)]])
+
+\* A restarted link opens with channel_reestablish, which states what the link has on DISK: the number of
+\* the next commitment it expects (id) and the number of revocations it has received (amt).  The receipt stamp
+\* is taken when a server takes a message off its queue; the link may have been stopped before it processed
+\* the last signature / revocation so taken (at most one of each can be outstanding).  The bookkeeping of that
+\* end is wound back accordingly, and what the restart forgets is recomputed from the corrected commitments.
+Reest ==
+  /\ IsE("s", {"reest"})
+  /\ LET c == E.ch  n == E.n
+         nlc  == IF lc[c][n].h = E.id - 1 THEN lc[c][n] ELSE und[c][n].lc
+         back == rtl[c][n].h # E.amt
+         ntl  == IF back THEN und[c][n].rtl ELSE rtl[c][n]
+         ntp  == IF back THEN und[c][n].rtp ELSE rtp[c][n] IN
+     /\ nlc.h = E.id - 1 /\ ntl.h = E.amt
+     /\ lc' = [lc EXCEPT ![c][n] = nlc]
+     /\ rtl' = [rtl EXCEPT ![c][n] = ntl]
+     /\ rtp' = [rtp EXCEPT ![c][n] = ntp]
+     /\ snt' = [snt EXCEPT ![c][n] = IF rsy[c][n] THEN ntl.own \cup (IF ntp.on THEN ntp.own ELSE {}) ELSE @]
+     /\ rcv' = [rcv EXCEPT ![c][n] = IF rsy[c][n] THEN nlc.th ELSE @]
+  /\ UNCHANGED <<idm, rmk, amt, rsy, und, hold, ib, pl>>
   /\ Finish(hs)
 
 HoldRes ==
   /\ Is("HoldRes")
   /\ hold' = IF E.ok = 1 THEN [hold EXCEPT ![E.p] = E.act] ELSE hold
-  /\ UNCHANGED <<pl, st, hs, snt, rcv, lc, rtl, rtp, idm, rmk, amt, rsy, ib>>
+  /\ UNCHANGED <<pl, st, hs, snt, rcv, lc, rtl, rtp, idm, rmk, amt, rsy, und, ib>>
 
 Quiesce == Is("Quiesce") /\ UNCHANGED <<pl, st, hs, wire>>
 
 Done == l = Len(Trace) + 1 /\ UNCHANGED vars
 
 TNext == Reset \/ SendAdd \/ RecvAdd \/ SendRm \/ RecvRm \/ SendSig \/ RecvSig \/ RecvRev
-         \/ Other \/ Restart \/ HoldRes \/ Quiesce \/ Done
+         \/ Other \/ Restart \/ Reest \/ HoldRes \/ Quiesce \/ Done
 TSpec == TInit /\ [][TNext]_vars
 
 -----------------------------------------------------------------------------
@@ -273,12 +304,15 @@ ActiveAt(c, x) == Cardinality({p \in P : Alive(p, lc[c][x]) /\ Alive(p, rtl[c][x
 Moved(c, x) == Sum([p \in P |-> IF Gone(p, lc[c][x]) /\ rmk[p][c] = "settle"
                                 THEN (IF Offerer(p, c) = x THEN 0 - amt[c][p] ELSE amt[c][p])
                                 ELSE 0], P)
+\* (the balance of an end whose own commitment still carries an HTLC - held, or one of the named deviations -
+\* also depends on the commitment fee of that HTLC's output and is not compared)
 QChannels == AtQ => \A c \in Chans : \A x \in Ends(c) :
                       /\ Last.act[EndIx(c, x)] = ActiveAt(c, x)
-                      /\ Last.bal[EndIx(c, x)] = ib[EndIx(c, x)] + Moved(c, x)
+                      /\ (\A p \in P : ~Alive(p, lc[c][x])) =>
+                            Last.bal[EndIx(c, x)] = ib[EndIx(c, x)] + Moved(c, x)
 
 \* the statement's sums, on the RECORDED balances
-QConservation == (AtQ /\ NoneOwed) =>
+QConservation == (AtQ /\ NoneOwed /\ \A c \in Chans : \A x \in Ends(c) : \A p \in P : ~Alive(p, lc[c][x])) =>
   LET d(i) == Last.bal[i] - ib[i] IN
   /\ d(2) + d(3) = FeesOfSucceeded
   /\ 0 - d(1) = ReceiverCredit("fwd") + FeesDir("fwd") - ReceiverCredit("rev")
@@ -287,7 +321,7 @@ QConservation == (AtQ /\ NoneOwed) =>
 \* circuits: Bob keeps none (held payments keep theirs); observation O2: a sender keeps the
 \* half-open circuit of a payment whose add was lost before it was signed
 NHeld == Cardinality({p \in P : Held(p)})
-NOwed(d) == Cardinality({p \in P : pl[p].dir = d /\ hs[p].owed})
+NOwed(d) == Cardinality({p \in P : pl[p].dir = d /\ (hs[p].owed \/ Stranded(p))})
 Lost(d) == Cardinality({p \in P : pl[p].dir = d /\ Untouched(p)})
 QCircuits == AtQ => /\ Last.pend[2] >= NHeld /\ Last.pend[2] <= NHeld + NOwed("fwd") + NOwed("rev")
                     /\ Last.open[2] >= NHeld /\ Last.open[2] <= NHeld + NOwed("fwd") + NOwed("rev")
